@@ -40,6 +40,10 @@ FRESH_CALLS = {
     'scipy.signal.resample', 'scipy.fft.fft', 'scipy.fft.ifft', 'itertools.permutations', 'itertools.product', 'itertools.combinations',
     'itertools.chain', 're.compile', 're.split', 're.match', 'open', 'warnings.warn', 'inspect.signature',
 }
+# fresh containers that still hold the (possibly mutable) elements of their argument
+SHALLOW_CALLS = {'list', 'dict', 'set', 'tuple', 'sorted', 'reversed', 'zip', 'enumerate', 'map', 'filter', 'iter', 'copy.copy', 'frozenset',
+                 'collections.OrderedDict', 'collections.defaultdict', 'itertools.chain', 'itertools.product', 'itertools.permutations',
+                 'itertools.combinations'}
 # calls / methods / attributes whose result may be (a view of) their first argument / receiver
 ALIAS_CALLS = {'np.asarray', 'np.atleast_1d', 'np.atleast_2d', 'np.atleast_3d', 'np.squeeze', 'np.ravel', 'np.reshape', 'np.transpose',
                'np.asanyarray', 'np.ascontiguousarray', 'np.swapaxes', 'np.moveaxis', 'np.broadcast_to'}
@@ -52,6 +56,32 @@ FRESH_METHODS = {'copy', 'astype', 'tolist', 'toarray', 'todense', 'tocsr', 'toc
 ALIAS_METHODS = {'reshape', 'ravel', 'squeeze', 'view', 'transpose', 'swapaxes', 'T'}
 MUTATORS = {'append', 'extend', 'insert', 'pop', 'remove', 'sort', 'reverse', 'clear', 'update', 'setdefault', 'popitem', 'fill', 'put',
             'resize', 'itemset', 'partition', 'add', 'discard', 'setflags', 'setfield', 'byteswap', 'eliminate_zeros', 'setdiag'}
+
+
+def elems_of(orgs):
+    """origins of the ELEMENTS of a freshly built container whose items come from values with origins `orgs`"""
+    out = set()
+    for o in orgs:
+        if o == FRESH:
+            continue
+        out.add(o if o.startswith('Elems:') else 'Elems:' + o)
+    return out
+
+
+def element_origins(orgs):
+    """origins of x[i] / an item yielded by iterating x, given the origins of x"""
+    out = set()
+    for o in orgs:
+        if o.startswith('Elems:'):
+            out.add(o[len('Elems:'):])
+        else:
+            out.add(o)                 # a view / element of a fresh object with fresh content is fresh; of a parameter, the parameter's
+    return out or {FRESH}
+
+
+def own(orgs):
+    """origins of the object itself (content tags dropped)"""
+    return {o for o in orgs if not o.startswith('Elems:')} or {FRESH}
 
 
 def dotted(n):
@@ -82,8 +112,24 @@ class Fn:
             if e.id in self.module_names:
                 return {'Global:' + e.id}
             return {FRESH} if e.id in ('True', 'False', 'None') or e.id in self.imports else {UNK}
-        if isinstance(e, (ast.Constant, ast.List, ast.Tuple, ast.Dict, ast.Set, ast.ListComp, ast.DictComp, ast.SetComp, ast.GeneratorExp,
-                          ast.BinOp, ast.UnaryOp, ast.Compare, ast.JoinedStr, ast.Lambda, ast.FormattedValue)):
+        if isinstance(e, (ast.List, ast.Tuple, ast.Set)):
+            out = {FRESH}
+            for x in e.elts:
+                out |= elems_of(self.org(x, env))
+            return out
+        if isinstance(e, ast.Dict):
+            out = {FRESH}
+            for x in e.values:
+                if x is not None:
+                    out |= elems_of(self.org(x, env))
+            return out
+        if isinstance(e, (ast.ListComp, ast.SetComp, ast.GeneratorExp, ast.DictComp)):
+            cenv = dict((k, set(v)) for k, v in env.items())
+            for g in e.generators:
+                self.bind(g.target, element_origins(self.org(g.iter, cenv)), cenv)
+            body = e.value if isinstance(e, ast.DictComp) else e.elt
+            return {FRESH} | elems_of(self.org(body, cenv))
+        if isinstance(e, (ast.Constant, ast.BinOp, ast.UnaryOp, ast.Compare, ast.JoinedStr, ast.Lambda, ast.FormattedValue)):
             return {FRESH}
         if isinstance(e, ast.BoolOp):
             out = set()
@@ -93,7 +139,15 @@ class Fn:
         if isinstance(e, ast.IfExp):
             return self.org(e.body, env) | self.org(e.orelse, env)
         if isinstance(e, ast.Subscript):
-            return self.org(e.value, env)             # basic slices of arrays are views; conservative for lists too
+            bo = self.org(e.value, env)
+            sl = e.slice
+            is_slice = isinstance(sl, ast.Slice) or (isinstance(sl, ast.Tuple) and any(isinstance(x, ast.Slice) for x in sl.elts))
+            if is_slice:
+                # x[a:b]: a view (arrays) or a new container holding the same elements (lists): the origins of x itself are kept
+                # conservatively (sound for views), and so are the content tags
+                return set(bo)
+            # x[i]: one of the objects x holds, or a view / scalar of x itself
+            return element_origins(bo) | {o for o in bo if o.startswith('Elems:')}
         if isinstance(e, ast.Starred):
             return self.org(e.value, env)
         if isinstance(e, ast.Attribute):
@@ -107,12 +161,20 @@ class Fn:
             d = dotted(e.func)
             args = list(e.args) + [k.value for k in e.keywords]
             if d in FRESH_CALLS or d in self.fresh_funcs:
-                return {FRESH}
+                out = {FRESH}
+                if d in SHALLOW_CALLS:
+                    for a in args:
+                        ao = self.org(a, env)
+                        out |= elems_of(element_origins(ao)) | {o for o in ao if o.startswith('Elems:')}
+                return out
             if d in ALIAS_CALLS:
                 return self.org(e.args[0], env) if e.args else {FRESH}
             if isinstance(e.func, ast.Attribute) and not (d and d.split('.')[0] in self.imports and d.split('.')[0] not in env):
                 m = e.func.attr
                 if m in FRESH_METHODS:
+                    if m in ('copy', 'values', 'items', 'get', 'tolist'):
+                        ro = self.org(e.func.value, env)
+                        return {FRESH} | elems_of(element_origins(ro)) | {o for o in ro if o.startswith('Elems:')}
                     return {FRESH}
                 if m in ALIAS_METHODS:
                     return self.org(e.func.value, env)
@@ -135,11 +197,26 @@ class Fn:
         b = self.base_name(target_expr)
         if self.fn.endswith('.__init__') and isinstance(b, ast.Name) and b.id == 'self':
             return                                   # initialising the object under construction
-        name = dotted(target_expr if kind in ('augassign-name',) else b) or ast.unparse(b)[:30]
-        org = sorted(self.org(b, env))
+        # the object written INTO: for x[i] = v / x[i][j] = v / x.attr = v it is the value of target.value
+        written = target_expr.value if (kind in ('store', 'augstore', 'delete') and isinstance(target_expr, (ast.Subscript, ast.Attribute))) else target_expr
+        name = dotted(written) or ast.unparse(written)[:40]
+        org = sorted(own(self.org(written, env)))
         key = (kind, name)
         self.counter[key] = self.counter.get(key, 0) + 1
         self.sites.append((kind, name, self.counter[key], org, ast.unparse(node).split('\n')[0][:90]))
+
+    def add_elems(self, container, org, env):
+        """container[...] = value / container.append(value): the container now holds the value"""
+        b = self.base_name(container)
+        if isinstance(b, ast.Name) and b.id in env:
+            env[b.id] = set(env[b.id]) | elems_of(org)
+
+    def bind_acc(self, target, org, env):
+        if isinstance(target, ast.Name):
+            env[target.id] = set(env.get(target.id, set())) | set(org)
+        elif isinstance(target, (ast.Tuple, ast.List)):
+            for t in target.elts:
+                self.bind_acc(t.value if isinstance(t, ast.Starred) else t, org, env)
 
     def bind(self, target, org, env):
         if isinstance(target, ast.Name):
@@ -157,6 +234,10 @@ class Fn:
                     d = dotted(n.func.value)
                     if not (d and d.split('.')[0] in self.imports and d.split('.')[0] not in env):
                         self.site('method-' + n.func.attr, n.func.value, env, n)
+                        if n.func.attr in ('append', 'extend', 'insert', 'update', 'setdefault', 'add'):
+                            for a in n.args:
+                                ao = self.org(a, env)
+                                self.add_elems(n.func.value, ao if n.func.attr not in ('extend', 'update') else element_origins(ao), env)
                 for k in n.keywords:
                     if k.arg == 'out' and not (isinstance(k.value, ast.Constant) and k.value.value is None):
                         self.site('out-argument', k.value, env, n)
@@ -192,6 +273,7 @@ class Fn:
                 for tt in (t.elts if isinstance(t, (ast.Tuple, ast.List)) else [t]):
                     if isinstance(tt, (ast.Subscript, ast.Attribute)):
                         self.site('store', tt, env, s)
+                        self.add_elems(tt.value, org, env)
                 self.bind(t, org, env)
             return env
         if isinstance(s, ast.AnnAssign):
@@ -247,23 +329,31 @@ class Fn:
         if isinstance(s, (ast.For, ast.AsyncFor)):
             self.scan_calls(s.iter, env)
             cur = dict((k, set(v)) for k, v in env.items())
-            for _ in range(2):
-                self.bind(s.target, self.org(s.iter, cur), cur)
-                saved = list(self.sites), dict(self.counter)
+            saved = list(self.sites), dict(self.counter)
+            for _ in range(12):                                # iterate the abstract state to a fixpoint (monotone: bindings accumulate)
+                self.bind_acc(s.target, element_origins(self.org(s.iter, cur)), cur)
+                self.sites, self.counter = list(saved[0]), dict(saved[1])
                 after = self.block(s.body, dict((k, set(v)) for k, v in cur.items()))
-                if _ == 0:
-                    self.sites, self.counter = saved            # first pass only propagates bindings
-                cur = self.merge(cur, after)
+                new = self.merge(cur, after)
+                if new == cur:
+                    break
+                cur = new
+            else:
+                raise TranslationError('%s.%s: loop analysis did not stabilise' % (self.mod, self.fn))
             return self.merge(cur, self.block(s.orelse, dict((k, set(v)) for k, v in cur.items())))
         if isinstance(s, ast.While):
             self.scan_calls(s.test, env)
             cur = dict((k, set(v)) for k, v in env.items())
-            for _ in range(2):
-                saved = list(self.sites), dict(self.counter)
+            saved = list(self.sites), dict(self.counter)
+            for _ in range(12):
+                self.sites, self.counter = list(saved[0]), dict(saved[1])
                 after = self.block(s.body, dict((k, set(v)) for k, v in cur.items()))
-                if _ == 0:
-                    self.sites, self.counter = saved
-                cur = self.merge(cur, after)
+                new = self.merge(cur, after)
+                if new == cur:
+                    break
+                cur = new
+            else:
+                raise TranslationError('%s.%s: loop analysis did not stabilise' % (self.mod, self.fn))
             return self.merge(cur, self.block(s.orelse, dict((k, set(v)) for k, v in cur.items())))
         if isinstance(s, (ast.With, ast.AsyncWith)):
             for it in s.items:
